@@ -784,8 +784,10 @@ func (s *sim) voteTriggers(b builtVote) (out []string) {
 		// stored as FutureVerified, but a view shift into that height starts from an empty view
 		out = append(out, "C10-F2")
 	}
-	if h > s.vv.Height && pairs > 0 && (s.c.Cfg.ValChange != 0 || s.altUsed || s.caseHasAlt()) {
-		// verified against the set its PubKeyHash names and stored for a height whose set may differ
+	if h > s.vv.Height && pairs > 0 && (s.altUsed || s.caseHasAlt()) {
+		// verified against the set its PubKeyHash names and stored for a height whose set may differ:
+		// only a Byzantine-but-consistent alternative next set can make the chain's set for that height
+		// differ from the one the harness signs with (the application's plan is a function of the height)
 		out = append(out, "C09-A26")
 	}
 	if future && short {
